@@ -35,6 +35,10 @@ CONTRACTS = {
               ('derived-lists-hold-model-pairs', LISTS_OK.format('project_lists') + ' and ' + LISTS_OK.format('lecturer_lists') + ' and ' + LISTS_OK.format('rank_lists')),
               ('well-formed-targets', 'forall(k, 0, self.model.num_lecturers, 0 <= self.model.lec_lower_quotas[k] and 0 <= self.model.lec_targets[k] and self.model.lec_targets[k] <= self.model.lec_upper_quotas[k])'),
               ('stability-needs-two-sided-lists', 'implies(' + OP + 'extra_constraints[Extra_constraints.STAB], two_sided(self.model))'),
+              # well-formed instance: a rank never exceeds the number of agents that can be ranked; admissible options: non-negative multipliers
+              ('ranks-bounded', "forall(i, 0, len(self.model.pairs), forall(c, 0, len(self.model.pairs[i]), self.model.pairs[i][c].rank_student <= self.model.num_projects and implies(has(self.model.pairs[i][c], 'rank_lecturer'), 1 <= self.model.pairs[i][c].rank_lecturer and self.model.pairs[i][c].rank_lecturer <= self.model.num_students)))"),
+              ('cost-multipliers-non-negative', 'forall(a, 0, len(' + OP + 'optimisation_options), implies((' + OP + 'optimisation_options[a][0] == Optimisation_options.MINCOST or ' + OP + 'optimisation_options[a][0] == Optimisation_options.MINSQCOST or ' + OP + 'optimisation_options[a][0] == Optimisation_options.MINCOSTLSB) and ' + OP + 'optimisation_options[a][1] != None, forall(t, 0, len(' + OP + 'optimisation_options[a][1]), ' + OP + 'optimisation_options[a][1][t] >= 0)))'),
+              ('one-rank-list-per-rank', 'is_max_rank(self.model, len(self.model.rank_lists))'),
               # what set_rank_lists guarantees for EVERY weight of pair objects (lemma C02/rank-sums-compose)
               ('rank-list-sums-for-every-weight', 'forall(j, 0, len(self.model.rank_lists), wsum(self.model.rank_lists[j]) == RANKW(j))'),
               ('each-criterion-at-most-once', 'forall(a, 0, len(' + OP + 'optimisation_options), forall(b, a + 1, len(' + OP + 'optimisation_options), ' + OP + 'optimisation_options[a][0] != ' + OP + 'optimisation_options[b][0]))'),
